@@ -65,6 +65,12 @@ def export_all(sd_base, wd, tier, timeout, only=None):
             s["cfg"] = harness_cfg(s["chain"])
             s["cfg"]["min_swap_msat"] = s.get("min_swap_msat", 100000000)
             s["cfg"]["accept_all"] = s.get("accept_all", True)
+            s["cfg"]["dup_pay"] = s.get("dup_pay", "cln")
+            s["cfg"]["swap_vout"] = s.get("swap_vout", 0)
+            s["cfg"]["peer_rate_ppm"] = s.get("peer_rate") or None
+            for k in ("wallet_sat", "spendable_msat", "receivable_msat", "btc_enabled", "lbtc_enabled"):
+                if k in s:
+                    s["cfg"][k] = s[k]
             scheds.append(s)
         shutil.rmtree(sd, ignore_errors=True)
         return res, scheds, n
